@@ -22,6 +22,9 @@ def install_parser_fault():
     def wrapped(self, do_add_end_of_stream_token):
         n = PARSE_CALLS["n"]
         PARSE_CALLS["n"] = n + 1
+        if os.environ.get("VH_FAULT_LOG") == "1":
+            from pymarkdown.general import verif_probe
+            verif_probe.emit("vh_tick", kind="parse", n=n)
         want = os.environ.get("VH_PARSE_FAULT", "")
         if want != "" and int(want) == n:
             raise RuntimeError("injected parser fault at invocation %d" % n)
